@@ -1,7 +1,7 @@
 (* C02 — every query path answers from one and the same joint distribution (the explicit joint `brute`). *)
 From Coq Require Import List Arith Bool Permutation.
 Import ListNotations.
-Require Import PGM.Base.Alg PGM.Base.Sums PGM.Model.BP PGM.Model.Query PGM.Proofs.BPrunP PGM.Proofs.QueryP PGM.Proofs.QueryLinkP.
+Require Import PGM.Base.Alg PGM.Base.Sums PGM.Model.BP PGM.Model.Query PGM.Proofs.BPrunP PGM.Proofs.QueryP PGM.Proofs.QueryLinkP PGM.Proofs.JTP PGM.Proofs.PairP.
 
 (* variable elimination equals the iterated sum of the product of the factors for EVERY elimination list
    (so the greedy heuristic, or the hash order of a Python set, cannot matter); any commutative semiring *)
@@ -42,7 +42,23 @@ Theorem C02_krondot (R : SR) shape Dl potsl qs : Forall (@wf R) potsl -> Forall 
 Proof. exact (@krondot_correct R shape Dl potsl qs). Qed.
 Print Assumptions C02_krondot.
 
-(* PARTIAL: calculate_many_marginals chains conditionals along tree paths; that the chained product equals
-   brute (C_i u C_j) needs conditional independence along the path and is NOT proved here
-   (many_marginals_path_partial) - the correspondence compares that path with `brute` on every run.
-   Saving/loading is pickling (runtime, not modelled); the harness round-trips half of the models. *)
+(* BULK QUERIES, ADJACENT CLIQUES.  calculate_many_marginals builds, for two cliques joined by a tree edge,
+       results[(Ci, Cj)] = marginals[Ci] * (marginals[Cj] / marginals[Cj].project(separator))      (Factor division: x / 0 := 0).
+   With the tree rooted at i and j's subtree first, the clique marginals are mu_i = c * belief_i, mu_j = c * belief_j (C01: c = total / Z;
+   belief_j is the belief of the same tree re-rooted at j), and that table equals c times the sum of the product of ALL potentials over
+   everything outside Ci \/ Cj - the marginal of the one joint on Ci \/ Cj, scaled like every other answer - zero entries included,
+   on every tree satisfying the recursive running-intersection predicate. *)
+Theorem C02_bulk_query_adjacent_cliques (F : SF) shape scope (psi : nat -> tbl F) i j ksj rest c x :
+  (forall d a, ~ In a (scope d) -> @indep F a (psi d)) ->
+  good scope (Node i (Node j ksj :: rest)) -> valid shape x ->
+  mul F (mul F c (belief_i F shape scope psi i j ksj rest x))
+        (zdiv F (mul F c (belief_j F shape scope psi i j ksj rest x))
+                (@sum_vars F shape (diff (scope j) (scope i)) (fun y => mul F c (belief_j F shape scope psi i j ksj rest y)) x))
+  = mul F c (@sum_vars F shape (flat_map (elimt scope (scope j)) ksj ++ flat_map (elimt scope (scope i)) rest)
+                              (jointt F psi (Node i (Node j ksj :: rest))) x).
+Proof. intros W G V. exact (pair_marginal F shape scope psi W i j ksj rest c x G V). Qed.
+Print Assumptions C02_bulk_query_adjacent_cliques.
+
+(* PARTIAL: for cliques further apart calculate_many_marginals chains these conditionals along the tree path and sums the intermediate
+   clique out; that longer chains equal brute (C_i u C_j) is NOT proved (many_marginals_path_partial) - the correspondence compares
+   every such answer with `brute` on every run.  Saving/loading is pickling (runtime, not modelled); the harness round-trips half of the models. *)
